@@ -288,7 +288,7 @@ Section DestGate.
   Proof. intros. gate. Qed.
   #[local] Hint Resolve dg_handle_metadata_packet : gate.
 
-  Lemma dg_handle_eof_without_previous_metadata : forall ck sz, DG (handle_eof_without_previous_metadata ck sz).
+  Lemma dg_handle_eof_without_previous_metadata : forall c ck sz, DG (handle_eof_without_previous_metadata c ck sz).
   Proof. intros. gate. Qed.
   #[local] Hint Resolve dg_handle_eof_without_previous_metadata : gate.
 
